@@ -216,9 +216,9 @@ def check(idx: Index, rep: Report, tier: str) -> str:
             h_ = idx.try_func(PM, c.func.id)
             if h_ is None or h_.name in ("_insert_swap_ops", "_insert_mv_op"):
                 continue
-            if not swaps and any(call_attr(k) == "_insert_swap_ops" for k in calls_in(h_.raw_node)):
+            if not swaps and any(call_attr(k) == "_insert_swap_ops" for k in calls_in(h_.as_raw().node)):
                 swaps = [c]
-            if not fr and any(isinstance(n, ast.Raise) and "Float cyclic move without free register" in unparse(n) for n in walk_local(h_.raw_node)):
+            if not fr and any(isinstance(n, ast.Raise) and "Float cyclic move without free register" in unparse(n) for n in walk_local(h_.as_raw().node)):
                 fr = [c]
     if fr and swaps:
         def _cls(nf):
@@ -291,8 +291,8 @@ def check(idx: Index, rep: Report, tier: str) -> str:
     for c in calls_in(f.node):
         if isinstance(c.func, ast.Name):
             h = idx.try_func(PM, c.func.id)
-            if h is not None and h.name != "_insert_mv_op" and any(call_attr(k) == "_insert_mv_op" or (isinstance(k.func, ast.Name) and k.func.id == "_insert_mv_op") for k in calls_in(h.raw_node)):
-                scopes.append(h.raw_node)
+            if h is not None and h.name != "_insert_mv_op" and any(call_attr(k) == "_insert_mv_op" or (isinstance(k.func, ast.Name) and k.func.id == "_insert_mv_op") for k in calls_in(h.as_raw().node)):
+                scopes.append(h.as_raw().node)
     found_pair = False
     for sc in scopes:
         scfg = cfg if sc is f.node else CFG(sc)
